@@ -6,7 +6,6 @@ EXTENDS Zip317, TLC
 VARIABLES sh, done
 vars == << sh, done >>
 
-Rules == {StandardRule, [m |-> 10, g |-> 3, pin |-> 100, pout |-> 30], [m |-> 1, g |-> 0, pin |-> 150, pout |-> 34]}
 Pools == {"transparent", "sapling", "orchard", "ironwood"}
 
 \* two levels so that TLC's workers share the enumeration: Init fixes the flags, Next the counts
@@ -19,7 +18,7 @@ Next == /\ ~done /\ done' = TRUE
               sh' = [sh EXCEPT !.sIn = a, !.sOut = b, !.oIn = c, !.oOut = d, !.iIn = e, !.iOut = f]
 Spec == Init /\ [][Next]_vars
 
-Manifests == {InPool(p, n) : p \in Pools, n \in 0..4}
+Manifests == {InPool(p, n) : p \in Pools, n \in 0..3}
 
 \* every real spend and output has a slot; dummies are never negative
 PadCovers ==
@@ -39,12 +38,17 @@ PadFloor ==
             /\ (p.ao = 0 \/ p.ao >= 2)
             /\ (p.ai = 0 \/ p.ai >= 2 \/ (p.ai = 1 /\ CanonicalCrossing(sh, ch)))
             /\ (CanonicalCrossing(sh, ch) => p.ai = 1 /\ p.ao >= 2)
-\* adding change outputs to a pool never lowers the fee (so the fee with the targeted number of
-\* change notes is the largest fee the strategy can arrive at)
+\* adding change outputs to a pool never lowers any padded count -- hence, with FeeMonotone of
+\* MC_Zip317, never the fee: the fee with the targeted number of change notes is the largest fee the
+\* strategy can arrive at, and the fee without change the smallest
 PadMonotone ==
     (done /\ ~BundleRefused(sh)) =>
-      \A r \in Rules, p \in Pools, n \in 0..3 :
-        ShapeFee(r, sh, InPool(p, n + 1)) >= ShapeFee(r, sh, InPool(p, n))
+      \A p \in Pools, n \in 0..3 :
+        LET a == Padded(sh, InPool(p, n))
+            b == Padded(sh, InPool(p, n + 1))
+        IN  /\ b.tin = a.tin /\ b.ss = a.ss
+            /\ b.tout >= a.tout /\ b.so >= a.so /\ b.ao >= a.ao /\ b.ai >= a.ai
+            /\ ShapeFee(StandardRule, sh, InPool(p, n + 1)) >= ShapeFee(StandardRule, sh, InPool(p, n))
 \* the canonical ZIP 318 crossing costs three marginal fees, with or without its Orchard change
 \* (rustdoc of `fees::canonical_crossing_fee`)
 CrossingFee ==
